@@ -217,6 +217,42 @@ def check(run):
     nk = [a for a in vm["arms"] if hirq.pat_key(a["pat"]).endswith("NoKeyword")]
     run.ob("R1-WEIGHTS", "ValueTypeKeyword::NoKeyword", len(nk) == 1 and [n["v"] for n in hirq.lits(nk[0]["body"], "int")] == [0],
            F.where(fz, vm), "NoKeyword has no spelling and must have weight 0")
+    # ---- R2 identifier spelling: the Identifier and Builtin arms write the random identifier *verbatim* (any trimming, case
+    # change or replacement can turn a valid first character into a digit or nothing), and the generator of that identifier
+    # writes a digit only at positions after the first
+    ident_lid, ident_closure = None, None
+    for n in walk(fz["hir"]):
+        if n.get("k") == "Let" and isinstance(n.get("init"), dict) and n["init"].get("k") == "Closure" and \
+                any((hirq.callee(c) or "").endswith("from_utf8") for c in hirq.calls(n["init"]["body"])) and \
+                any(c.get("name") == "random_range" for c in hirq.calls(n["init"]["body"])):
+            ident_lid, ident_closure = n["pat"].get("lid"), n["init"]
+    run.require(ident_closure is not None, "the identifier generator closure (random bytes, from_utf8) was not found")
+    from rules import origins as _oro
+    for v in ("Identifier", "Builtin"):
+        a = explicit.get(v)
+        run.require(a is not None, "the %s arm of the emission match was not found" % v)
+        pushes = [c for c in hirq.calls(a["body"]) if c.get("k") == "MethodCall" and c.get("name") == "push_str"]
+        verbatim = False
+        for c in pushes:
+            arg = hirq.unwrap_trivial(c["a"][0])
+            while arg.get("k") == "AddrOf" or (arg.get("k") == "Unary" and arg.get("op") == "Deref"):
+                arg = hirq.unwrap_trivial(arg["e"])
+            if arg.get("k") == "Path" and arg.get("rk") == "Local":
+                src = [n_ for n_ in walk(a["body"]) if n_.get("k") == "Let" and n_["pat"].get("lid") == arg.get("lid")]
+                if src and hirq.unwrap_trivial(src[0]["init"]).get("k") == "Call" and hirq.unwrap_trivial(hirq.unwrap_trivial(src[0]["init"])["f"]).get("lid") == ident_lid:
+                    verbatim = True
+        run.ob("R2-SPELLING", "%s|identifier verbatim" % v, len(pushes) == 1 and verbatim, F.where(fz, a),
+               "the %s arm must write the generated identifier as it is (push_str(&identifier)); a transformed spelling (trimmed, "
+               "re-cased, replaced) need not start with an identifier-start character" % v)
+    digit_pushes = [c for c in hirq.calls(ident_closure["body"]) if c.get("k") == "MethodCall" and c.get("name") == "push"
+                    and any(x.get("k") == "Lit" and x.get("v") in (48, 57) for x in walk(c))]
+    guarded = True
+    for c in digit_pushes:
+        ifs_ = [n for n in walk(ident_closure["body"]) if n.get("k") == "If" and any(x is c for x in walk(n["then"]))]
+        first_guard = any(any(y.get("k") == "Binary" and y.get("op") == "Gt" and hirq.unwrap_trivial(y["rhs"]).get("v") == 0 for y in walk(n["cond"])) for n in ifs_)
+        guarded = guarded and first_guard
+    run.ob("R2-SPELLING", "identifier generator|no leading digit", bool(digit_pushes) and guarded, F.where(fz, ident_closure),
+           "the identifier generator writes a digit only under `i > 0`: an identifier never starts with a digit")
     # ---- R3 separators
     # the separator closure, by role: the let-bound closure whose body calls the lexer's is_identifier_continuation
     sep_closure, sep_lid, sep_fn = None, None, None
